@@ -13,6 +13,7 @@ pub static META: Meta = Meta {
     rule: "generated programs with >=1 intermediate rule (negation / aggregation / joins over intermediates) x EDB; for N in {1,2,3,5,|A|,|A|+1} the answer R under set_max_result_rows(N) must satisfy |R| = min(N,|A|) and R subset of A (A = unlimited answer); non-trivial = |A| >= 2 and the program has an intermediate relation; distinct = program + EDB + N",
     assumptions: &["a limited run that returns Err is outside the property (counted, not a violation)"],
     floor: 20,
+    watchdog: (0, 0),
 };
 
 /// Some(description) if limit n breaks the property on p
@@ -75,7 +76,24 @@ pub fn run(ctx: &mut Ctx) {
             let got = run_engine(&small, &RunOpts { max_rows: Some(n), ..Default::default() }).map(|a| a.rows).unwrap_or_default();
             let f = features(&small).iter().copied().collect::<Vec<_>>().join("+");
             let multi = small.clauses.iter().any(|c| c.head != "q");
-            let class = if multi { format!("limit-applied-to-intermediate:{f}") } else { format!("single-rule:{f}") };
+            // call-site classes: the limit reaches (a) a user-written intermediate rule, (b) a rule the
+            // optimizer generated (violation disappears with all optimizations off), (c) anything else
+            let kind = if w.contains("outside") { "outside-answer" } else { "wrong-size" };
+            let off_ok = {
+                let a0 = run_engine(&small, &RunOpts { bits: Some(0), ..Default::default() }).map(|a| a.set());
+                let r0 = run_engine(&small, &RunOpts { bits: Some(0), max_rows: Some(n), ..Default::default() });
+                match (a0, r0) {
+                    (Ok(a0), Ok(r0)) => r0.set().is_subset(&a0) && r0.rows.len() == n.min(a0.len()),
+                    _ => false,
+                }
+            };
+            let class = if multi {
+                format!("limit-applied-to-intermediate:{kind}")
+            } else if off_ok {
+                format!("limit-applied-to-optimizer-generated-rule:{kind}")
+            } else {
+                format!("single-rule:{f}:{kind}")
+            };
             ctx.violation(k, &format!("C08:{class}"), format!("limit {n}: {w}"), json!({"minimised": small.to_json(), "limit": n, "limited_answer": rows_json(&got), "unlimited_answer": rel_json(&a2)}));
         }
     }
